@@ -63,3 +63,18 @@ package fanspeedpb
 //@   ensures [relative-index] request.Relative && in32(old(fsOf(n).PresetIndex) + old(fsOf(o).PresetIndex)) ==> fsOf(n).PresetIndex == old(fsOf(n).PresetIndex) + old(fsOf(o).PresetIndex)
 //@   ensures [stored-kept] fsOf(o).Preset == old(fsOf(o).Preset) && fsOf(o).PresetIndex == old(fsOf(o).PresetIndex) && fsOf(o).Percentage == old(fsOf(o).Percentage)
 //@   replay FanRelativeIndex(old(fsOf(o).PresetIndex), old(fsOf(n).PresetIndex))
+//@
+//@ property C14
+//@ // ---- the model's write path seen from the server (C14 "a successful Update's response equals the next Get; a rejected
+//@ // one leaves Get unchanged"): an update that fails validation is answered with that error and nothing is written;
+//@ // otherwise there is ONE write, of the caller's message, and its verdict (the stored message, or the error and nothing)
+//@ // is what the caller gets ----
+//@ func (*Model).UpdateFanSpeed(fanSpeed, opts) (res, err)
+//@   option only post     // the resource's own preconditions (a well-formed Value, the caller's message is not the stored one) are the server's business
+//@   track validateUpdate
+//@   track Set
+//@   ensures [validated-first] calls(validateUpdate) == old(calls(validateUpdate)) + 1 && lastarg(validateUpdate, 1) == fanSpeed
+//@   ensures [invalid-not-written] lastcall(validateUpdate) != nil ==> err == lastcall(validateUpdate) && res == nil && calls(Set) == old(calls(Set))
+//@   ensures [one-write] lastcall(validateUpdate) == nil ==> calls(Set) == old(calls(Set)) + 1 && istype(lastarg(Set, 1), *traits.FanSpeed) && cast(lastarg(Set, 1), *traits.FanSpeed) == fanSpeed
+//@   ensures [answer] lastcall(validateUpdate) == nil ==> err == lastcall(Set, 1) && (isnil(lastcall(Set, 0)) ==> res == nil) && (!isnil(lastcall(Set, 0)) && istype(lastcall(Set, 0), *traits.FanSpeed) ==> res == cast(lastcall(Set, 0), *traits.FanSpeed))
+//@   modifies all
